@@ -9,7 +9,7 @@
 From Coq Require Import ZArith List Bool Lia.
 Import ListNotations.
 Require Import Grist.Model.Schedule Grist.Proofs.Schedule_proofs.
-Require Import Grist.Lib.PySched Grist.Model.ScheduleCode GristGen.Schedule_gen Grist.Proofs.Schedule_bridge.
+Require Import Grist.Lib.PySched Grist.Model.ScheduleCode GristGen.Schedule_gen Grist.Proofs.Schedule_bridge Grist.Lib.SchedDiff.
 Open Scope Z_scope.
 
 Section C35.
@@ -268,4 +268,41 @@ Section C35_code.
     (forall x e', p_int P x = Exn e' -> e' = ValueError) ->
     parse_interval P s = Exn e -> e = ValueError.
   Proof. exact (code_parse_interval_only_ValueError P). Qed.
+
+  (* _parse_slot raises nothing but ValueError, or the OverflowError of the timedelta constructor.
+     Assumed of the opaque primitives (each monitored on the implementation): int() of a str raises only
+     ValueError; timedelta(unit=n) for the five fixed-length units raises only OverflowError; when the
+     group of a slot type took part in a match of _SLOT_RE, so did the groups its parser reads. *)
+  Section ParseSlotErrors.
+    Local Notation G m name := (p_group P m name).
+    Hypothesis int_raises : forall x e, p_int P x = Exn e -> e = ValueError.
+    Hypothesis td_raises : forall u n e, In u td_units -> p_td_unit P u n = Exn e -> e = OverflowError.
+    Hypothesis re_date : forall m, ostr_truthy (G m [100; 97; 116; 101]) = true ->
+      G m [109; 111; 110; 116; 104; 95; 100; 97; 121] <> None /\
+      (ostr_truthy (G m [109; 111; 110; 116; 104; 95; 110; 97; 109; 101]) = true \/
+       G m [109; 111; 110; 116; 104; 95; 110; 117; 109] <> None).
+    Hypothesis re_mday : forall m, ostr_truthy (G m [109; 100; 97; 121]) = true ->
+      G m [109; 111; 110; 116; 104; 95; 100; 97; 121; 50] <> None.
+    Hypothesis re_wday : forall m, ostr_truthy (G m [119; 100; 97; 121]) = true ->
+      G m [119; 101; 101; 107; 100; 97; 121] <> None.
+    Hypothesis re_time : forall m, ostr_truthy (G m [116; 105; 109; 101]) = true -> G m [104; 111; 117; 114; 115] <> None.
+    Hypothesis re_mins : forall m, ostr_truthy (G m [109; 105; 110; 115]) = true ->
+      G m [109; 105; 110; 117; 116; 101; 115; 50] <> None.
+    Hypothesis re_delta : forall m, ostr_truthy (G m S_delta) = true -> G m [99; 111; 117; 110; 116] <> None.
+
+    Theorem C35_code_parse_slot_errors : forall s u e,
+      parse_slot P s u = Exn e -> e = ValueError \/ e = OverflowError.
+    Proof. exact (parse_slot_errors P int_raises td_raises re_date re_mday re_wday re_time re_mins re_delta). Qed.
+  End ParseSlotErrors.
 End C35_code.
+
+(* the generated parser at work on the ASCII instance of the primitives used by the differential check, with a
+   one-entry regex table for the part "+2d": accepted once, rejected twice ("Duplicate unit") *)
+Example C35_code_parse_slot_nonvacuous :
+  let part := [43; 50; 100] in
+  let m := [([100; 101; 108; 116; 97], Some part); ([99; 111; 117; 110; 116], Some [50]); ([117; 110; 105; 116], Some [100])] in
+  let P := fun parts => Grist.Lib.SchedDiff.parse_prims parts [] [(part, Some m)] in
+  parse_slot (P [part]) part S_days = Val (mkDelta (2 * 86400000000) 0) /\
+  parse_slot (P [part; part]) part S_days = Exn ValueError /\
+  parse_slot (P []) part S_days = Exn ValueError.
+Proof. cbv zeta. repeat split; vm_compute; reflexivity. Qed.
